@@ -170,6 +170,20 @@ def erase_idx(toks, off=0):
         if t == "let" and nxt in ("ghost", "tracked"):
             i = _skip_stmt(toks, i)
             continue
+        if t == "let" and nxt == "vx_ret" and i + 2 < n and toks[i + 2] == "=":
+            # `let vx_ret = TAIL ; proof {..} vx_ret`  ==  `TAIL`   (re-binding of the tail expression so a proof can follow it)
+            j = i + 3
+            while j < n and toks[j] != ";":
+                if toks[j] in ("(", "[", "{"):
+                    j = match_close(toks, j) + 1
+                    continue
+                j += 1
+            out.extend(erase_idx(toks[i + 3:j], off + i + 3))
+            i = j + 1
+            continue
+        if t == "vx_ret":
+            i += 1
+            continue
         if t == "broadcast" and nxt == "use":
             i = _skip_stmt(toks, i)
             continue
